@@ -21,7 +21,10 @@ def main():
         finally:
             sh("git -C /repo checkout -- .")
         print(sid, out[sid], flush=True)
-    json.dump(out, open(os.path.join(V, "seeded", "REGRESSION.json"), "w"), indent=1)
+    rp = os.path.join(V, "seeded", "REGRESSION.json")
+    allr = json.load(open(rp)) if os.path.exists(rp) and sys.argv[1:] else {}
+    allr.update(out)
+    json.dump(allr, open(rp, "w"), indent=1)
     missed = [s for s, d in out.items() if d.get("exit") != 1]
     print("seeds: %d, reported: %d, missed: %s" % (len(out), len(out) - len(missed), missed))
 if __name__ == "__main__":
